@@ -227,7 +227,10 @@ func runC08(c *eng.Ctx) {
 			return ok && eng.IsParam(ia.X, "input")
 		}, func(v ssa.Value) bool { k, ok := eng.ConstInt(v); return ok && k == 0 }, token.EQL)
 		var fresh []ssa.Instruction
-		for _, in := range eng.Find(rf, func(in ssa.Instruction) bool { a, ok := in.(*ssa.Alloc); return ok && a.Heap && eng.TypeName(a.Type()) == "TTL" }) {
+		for _, in := range eng.Find(rf, func(in ssa.Instruction) bool {
+			a, ok := in.(*ssa.Alloc)
+			return ok && a.Heap && eng.TypeName(a.Type()) == "TTL"
+		}) {
 			fresh = append(fresh, in)
 		}
 		if len(fresh) == 0 {
